@@ -119,7 +119,7 @@ def miller(c):
     from orix.vector import Miller
     ph = phase_for(c["k"], c["basis"])
     dt = int if c.get("dtype") == "int" else float     # Python / numpy integers are legitimate input
-    kw = {c["fmt"]: np.asarray(c["coords"], dt).reshape(tuple(c["shape"]) + (3,))}
+    kw = {c["fmt"]: common.relayout(np.asarray(c["coords"], dt).reshape(tuple(c["shape"]) + (3,)), c["coords"])}
     return Miller(phase=ph, **kw)
 
 
